@@ -188,13 +188,20 @@ def techReady (hs hi : Bool) : Tech → Bool
   | .setattr => hs
   | .instDict => hi
 
-/-- `… = v` or `… = __attr_converter_f(v, …)` through technique `t` -/
+/-- `… = v` or `… = __attr_converter_f(v, …)` through technique `t`.  The script shows ONE call; what
+    `__attr_converter_f` is bound to is the field's converter, which for a chain (`a.pipe`) is `pipe()`'s
+    `pipe_converter`: it runs the members left to right (`runConvs`). -/
 def applyStore (r : RunIn) (t : Tech) (a : Attr) (conv : Option Conv) (v : Val) (st : St) : St :=
   match conv with
   | none => st.store r.cfg r.fault t a v
   | some c =>
-    let st1 := st.emit r.fault { id := { kind := "conv", field := a.name, idx := 0 }, args := convEventArgs a c v }
-    if st1.raised.isSome then st1 else st1.store r.cfg r.fault t a (convVal a c v)
+    match a.pipe with
+    | none =>
+      let st1 := st.emit r.fault { id := { kind := "conv", field := a.name, idx := 0 }, args := convEventArgs a c v }
+      if st1.raised.isSome then st1 else st1.store r.cfg r.fault t a (convVal a c v)
+    | some ms =>
+      let x := runConvs r.fault a.name 0 ms v st
+      if x.1.raised.isSome then x.1 else x.1.store r.cfg r.fault t a x.2
 
 def execStore (r : RunIn) (env : List (String × Val)) (s : Store) (x : XSt) : XSt :=
   if !techReady x.hasSetattr x.hasInstDict s.tech then x.fail .other else
